@@ -1,10 +1,19 @@
 #!/bin/bash
 # re-run every seeded change of /verif/seeded against the current checks (isolated; see seed_trial_iso.sh)
-# usage: lib/seed_all.sh [outdir]
-OUT=${1:-/root/scratch/trials_all}
+# usage: lib/seed_all.sh [outdir] [only-id ...]
+OUT=${1:-/root/scratch/trials_all}; shift
 mkdir -p $OUT
+ONLY="$*"
 for d in /verif/seeded/*/; do
-  id=$(basename $d); P=${id:0:3}
-  r=$(/verif/lib/seed_trial_iso.sh $d/patch.diff $OUT/$id $P | tail -1)
+  id=$(basename $d)
+  [ -f $d/patch.diff ] || continue
+  if [ -n "$ONLY" ] && ! echo " $ONLY " | grep -q " $id "; then continue; fi
+  case $id in
+    A1_*) P="C06 C05 C17" ;;
+    X1_*) P="C09 C12" ;;
+    H1_*) P="C01 C04 C05 C06 C08 C09 C15 C17 C18" ;;      # the harmless rewrite: every one of these must stay quiet
+    *)    P=${id:0:3} ;;
+  esac
+  r=$(/verif/lib/seed_trial_iso.sh $d/patch.diff $OUT/$id $P | grep " rc=" | tr '\n' ';')
   echo "$id -> $r"
-done | tee $OUT/ALL.txt
+done | tee -a $OUT/ALL.txt
